@@ -1,5 +1,6 @@
 use vstd::prelude::*;
 use core::cmp::Ordering;
+use vstd::std_specs::iter::IteratorSpec;
 macro_rules! btreeset { ($($e:expr),+ $(,)?) => { BTreeSet::kvx_from_array([$($e),+]) }; }
 verus! {
 //@include shims/duration.rs
@@ -23,7 +24,63 @@ impl Identity {
 //@include shims/access_statics.rs
 //@extract AccessControlReceiverCondition
 //@extract AccessControlTargetCondition
-//@extract AccessControlModify
+// AccessControlModify (server/access/profiles.rs): the four grant lists are viewed as sequences (Vec<Attribute> / Vec<AttrString>)
+#[verifier::external_body] pub struct KvxAttrVec { p: u8 }
+impl View for KvxAttrVec { type V = Seq<Attribute>; uninterp spec fn view(&self) -> Seq<Attribute>; }
+#[verifier::external_body] pub struct KvxAttrIter<'a> { p: core::marker::PhantomData<&'a Attribute> }
+impl<'a> KvxAttrIter<'a> { pub uninterp spec fn items(&self) -> Seq<Attribute>; #[verifier::external_body] pub fn cloned(self) -> (r: KvxAttrIter<'a>) ensures r.items() == self.items() { unimplemented!() } }
+impl KvxAttrVec { #[verifier::external_body] pub fn iter(&self) -> (r: KvxAttrIter<'_>) ensures r.items() == self@ { unimplemented!() } }
+#[verifier::external_body] pub struct KvxClsVec { p: u8 }
+impl View for KvxClsVec { type V = Seq<String>; uninterp spec fn view(&self) -> Seq<String>; }   // class names
+#[verifier::external_body] pub struct KvxClsIter<'a> { p: core::marker::PhantomData<&'a AttrString> }
+#[verifier::external_body] pub struct KvxStrIter<'a> { p: core::marker::PhantomData<&'a str> }
+impl<'a> KvxClsIter<'a> { pub uninterp spec fn names(&self) -> Seq<String>;
+    // `.map(|s| s.as_str())`: the same names, borrowed
+    #[verifier::external_body] pub fn map<F: Fn(&'a AttrString) -> &'a str>(self, f: F) -> (r: KvxStrIter<'a>)
+        ensures KvxItems::items(&r).len() == self.names().len(), forall|i: int| 0 <= i < self.names().len() ==> (#[trigger] KvxItems::items(&r)[i]).as_key() == self.names()[i] { unimplemented!() } }
+impl KvxClsVec { #[verifier::external_body] pub fn iter(&self) -> (r: KvxClsIter<'_>) ensures r.names() == self@ { unimplemented!() } }
+// R3: Iterator::flat_map (provided trait method) redirected; `.collect()` is an inherent method of the stand-in result. Soundness direction
+// only: every collected element comes from an iterator that the closure returned for some element of the slice.
+// R3: Iterator::filter_map (provided trait method) redirected; `.collect()` into a Vec is an inherent method of the stand-in result.
+// Soundness direction: every collected element is a value the closure returned as Some(..) for some element of the slice.
+#[verifier::external_body] #[verifier::reject_recursive_types(B)] pub struct KvxFm<B> { p: core::marker::PhantomData<B> }
+impl<B> KvxFm<B> {
+    pub uninterp spec fn outs(&self) -> Seq<B>;
+    #[verifier::external_body] pub fn collect(self) -> (r: Vec<B>) ensures r@ == self.outs() { unimplemented!() }
+}
+pub trait KvxFilterMap<'b, T: 'b>: Sized {
+    #[verifier::prophetic] spec fn kvx_fm_items(&self) -> Seq<&'b T>;
+    fn kvx_filter_map<B, F: Fn(&'b T) -> Option<B>>(self, f: F) -> (r: KvxFm<B>)
+        requires forall|i: int| 0 <= i < self.kvx_fm_items().len() ==> f.requires((#[trigger] self.kvx_fm_items()[i],)),
+        ensures self.kvx_fm_items().len() >= 0,
+                forall|j: int| 0 <= j < r.outs().len() ==> exists|i: int| 0 <= i < self.kvx_fm_items().len() && f.ensures((#[trigger] self.kvx_fm_items()[i],), Some(#[trigger] r.outs()[j]));
+}
+impl<'b, T> KvxFilterMap<'b, T> for core::slice::Iter<'b, T> {
+    #[verifier::prophetic] open spec fn kvx_fm_items(&self) -> Seq<&'b T> { self.remaining() }
+    #[verifier::external_body] fn kvx_filter_map<B, F: Fn(&'b T) -> Option<B>>(self, f: F) -> (r: KvxFm<B>) { unimplemented!() }
+}
+pub trait KvxItems { type Item; spec fn items(&self) -> Seq<Self::Item>; }
+impl<'a> KvxItems for KvxAttrIter<'a> { type Item = Attribute; open spec fn items(&self) -> Seq<Attribute> { KvxAttrIter::items(self) } }
+impl<'a> KvxItems for KvxStrIter<'a> { type Item = &'a str; uninterp spec fn items(&self) -> Seq<&'a str>; }
+#[verifier::external_body] #[verifier::reject_recursive_types(X)] pub struct KvxFlat<X> { p: core::marker::PhantomData<X> }
+impl<X> KvxFlat<X> {
+    pub uninterp spec fn parts(&self) -> Seq<Seq<X>>;
+    #[verifier::external_body] pub fn collect(self) -> (r: BTreeSet<X>)
+        ensures forall|x: X| #[trigger] r@.contains(x) ==> exists|p: int, j: int| 0 <= p < self.parts().len() && 0 <= j < self.parts()[p].len() && self.parts()[p][j] == x { unimplemented!() }
+}
+pub trait KvxFlatMap<'b, T: 'b>: Sized {
+    #[verifier::prophetic] spec fn kvx_items(&self) -> Seq<&'b T>;
+    fn kvx_flat_map<I: KvxItems, F: Fn(&'b T) -> I>(self, f: F) -> (r: KvxFlat<I::Item>)
+        requires forall|i: int| 0 <= i < self.kvx_items().len() ==> f.requires((#[trigger] self.kvx_items()[i],)),
+        ensures self.kvx_items().len() >= 0,
+                forall|p: int| 0 <= p < r.parts().len() ==> exists|i: int, it: I| 0 <= i < self.kvx_items().len() && #[trigger] f.ensures((self.kvx_items()[i],), it) && it.items() == #[trigger] r.parts()[p];
+}
+impl<'b, T> KvxFlatMap<'b, T> for core::slice::Iter<'b, T> {
+    #[verifier::prophetic] open spec fn kvx_items(&self) -> Seq<&'b T> { self.remaining() }
+    #[verifier::external_body] fn kvx_flat_map<I: KvxItems, F: Fn(&'b T) -> I>(self, f: F) -> (r: KvxFlat<I::Item>) { unimplemented!() }
+}
+impl AttrString { #[verifier::external_body] pub fn as_str(&self) -> (r: &str) { unimplemented!() } }
+pub struct AccessControlModify { pub acp: AccessControlProfile, pub presattrs: KvxAttrVec, pub remattrs: KvxAttrVec, pub pres_classes: KvxClsVec, pub rem_classes: KvxClsVec }
 //@extract AccessControlModifyResolved
 //@extract AccessBasicResult
 //@extract AccessModResult
@@ -66,5 +123,32 @@ pub proof fn lemma_class_lists_cover_statement()
 //@extract modify_protected_entry_attrs
 //@extract modify_protected_attrs
 //@extract modify_sync_constrain
+#[verifier::external_body] pub fn migration_entry_attrs(classes: &BTreeSet<String>) -> (r: (BTreeSet<Attribute>, BTreeSet<&'static str>)) { unimplemented!() }
+// "matching that user and that entry": the profile's receiver condition holds for the identity and its target filter matches the entry
+pub open spec fn receiver_ok(c: AccessControlReceiverCondition, i: &Identity, e: &EntrySealedCommitted) -> bool {
+    match c {
+        AccessControlReceiverCondition::GroupChecked => true,
+        AccessControlReceiverCondition::EntryManager => e.refers(Attribute::EntryManagedBy) matches Some(m)
+            && ((i.memberof() matches Some(g) && !g.disjoint(m)) || m.contains(i.uuid())),
+    }
+}
+pub open spec fn target_ok(c: AccessControlTargetCondition, e: &EntrySealedCommitted) -> bool { match c { AccessControlTargetCondition::Scope(f) => e.matches_filter(&f) } }
+pub open spec fn modify_acp_applies(a: &AccessControlModifyResolved, i: &Identity, e: &EntrySealedCommitted) -> bool { receiver_ok(a.receiver_condition, i, e) && target_ok(a.target_condition, e) }
+// every attribute / class in the four allowed sets is listed by some supplied profile that applies to (identity, entry)
+pub open spec fn all_granted(acps: &[AccessControlModifyResolved], i: &Identity, e: &EntrySealedCommitted,
+                             pres: Set<Attribute>, rem: Set<Attribute>, pres_cls: Set<&str>, rem_cls: Set<&str>) -> bool {
+    &&& forall|x: Attribute| #[trigger] pres.contains(x) ==> exists|k: int| 0 <= k < acps@.len() && modify_acp_applies(#[trigger] &acps@[k], i, e) && lists_pres(acps@[k].acp, x)
+    &&& forall|x: Attribute| #[trigger] rem.contains(x) ==> exists|k: int| 0 <= k < acps@.len() && modify_acp_applies(#[trigger] &acps@[k], i, e) && lists_rem(acps@[k].acp, x)
+    &&& forall|c: &str| #[trigger] pres_cls.contains(c) ==> exists|k: int| 0 <= k < acps@.len() && modify_acp_applies(#[trigger] &acps@[k], i, e) && lists_pres_cls(acps@[k].acp, c.as_key())
+    &&& forall|c: &str| #[trigger] rem_cls.contains(c) ==> exists|k: int| 0 <= k < acps@.len() && modify_acp_applies(#[trigger] &acps@[k], i, e) && lists_rem_cls(acps@[k].acp, c.as_key())
+}
+// "granted by a profile": membership of the profile's grant lists
+pub open spec fn lists_pres(a: &AccessControlModify, x: Attribute) -> bool { exists|j: int| 0 <= j < a.presattrs@.len() && #[trigger] a.presattrs@[j] == x }
+pub open spec fn lists_rem(a: &AccessControlModify, x: Attribute) -> bool { exists|j: int| 0 <= j < a.remattrs@.len() && #[trigger] a.remattrs@[j] == x }
+pub open spec fn lists_pres_cls(a: &AccessControlModify, c: String) -> bool { exists|j: int| 0 <= j < a.pres_classes@.len() && #[trigger] a.pres_classes@[j] == c }
+pub open spec fn lists_rem_cls(a: &AccessControlModify, c: String) -> bool { exists|j: int| 0 <= j < a.rem_classes@.len() && #[trigger] a.rem_classes@[j] == c }
+//@extract modify_migration_attrs
+//@extract modify_pres_test
+//@extract apply_modify_access
 }
 fn main(){}
